@@ -109,7 +109,7 @@ func eq(a, b Term) Term {
 }
 func num(n int64) Term {
 	if n < 0 {
-		return fmt.Sprintf("(- %d)", -n)
+		return "(- " + new(big.Int).Neg(big.NewInt(n)).String() + ")" // -n overflows for MinInt64
 	}
 	return fmt.Sprintf("%d", n)
 }
